@@ -9,7 +9,7 @@ from vf.model import layout
 
 LOCALS = ['.loop', '.done', '.x1']
 FILE_LABELS = ['_tmp', '_cnt', '_buf']
-GLOBALS = ['main', 'sub_a', 'Data1', 'tbl_x', 'vec', 'fin', 'prt', 'q_entry', 'loop', 'done', 'G7', 'zz_top']
+GLOBALS = ['main', 'sub_a', 'Data1', 'tbl_x', 'vec', 'fin', 'prt', 'q_entry', 'loop', 'done', 'G7', 'zz_top', 'each', 'bach', 'b1_1']
 # the last three are declared in the ISA with these very spellings (upper / mixed case): a label or constant of exactly
 # that spelling is a register name too
 REGS = ['a', 'b', 'sp', 'SPQ', 'Rx', 'IDX']
@@ -159,7 +159,7 @@ class C06(core.Check):
         'label-not-first-on-its-line/global', 'label-not-first-on-its-line/local', 'label-not-first-on-its-line/file',
         'reference-inside:indirect-numeric', 'reference-inside:deferred-numeric', 'reference-inside:indexed-register',
         'reference-inside:indirect-indexed-register', 'reference-inside:indirect-register-offset',
-        'local-inside-operand-form-with-same-named-global', 'predefined-data-name-in-a-constant', 'predefined-data-name-in-an-origin']}
+        'local-inside-operand-form-with-same-named-global', 'illegal:undefined/name-that-nearly-reads-as-a-number', 'predefined-data-name-in-a-constant', 'predefined-data-name-in-an-origin']}
 
     def build(self, rng, illegal, mute_refs=None, zero_refs=None, join_p=0.15, via_p=0.25, pre_p=0.35):
         nfiles = rng.choice([1, 1, 2, 2, 3, 4])
@@ -469,7 +469,11 @@ class C06(core.Check):
                         return True
             return False
         if kind == 'undefined':
-            L.append({'k': 'ref', 'name': rng.choice(['nowhere', '_nofile', 'Undefined_9'])})
+            # (also names that would read as numbers in another spelling: hex letters with a lower-case h, b + binary digits + more)
+            nm_ = rng.choice(['nowhere', '_nofile', 'Undefined_9', 'ach', 'beach', 'b12', 'fadedh'])
+            L.append({'k': 'ref', 'name': nm_})
+            if nm_ in ('ach', 'beach', 'b12', 'fadedh'):
+                tags.add('illegal:undefined/name-that-nearly-reads-as-a-number')
             return True
         if kind == 'dup-global' or kind == 'dup-global-across-files':
             gl = [(g, it['name']) for g in fnames for it in files[g] if it['k'] == 'label' and not it['name'].startswith(('.', '_'))]
